@@ -24,7 +24,8 @@ fn gen_prog(r: &mut Rng) -> Vec<H> {
         "sorted_once = sort(sh)",
         "rev = reverse(sh)",
         "uq = unique([...sh, ...rev])",
-        "rnd = [random(42), random(7), random(42)]",
+        "rnd = [random(42), random(7), random(42), random(0.5), random(-1), random(1e30)]",
+        "rnd2 = [random(inf), random(-inf), random(0 / 0), random(inf) == random(inf)]",
         "k1 = 1",
         "k2 = \"two\"",
         "k3 = [3]",
